@@ -183,22 +183,51 @@ func pre014(version string) bool {
 // model script: one snew + one sblock line per block; storage writes in descending key order
 // (the order core/state applies them), everything else in sorted order.
 func stateModelLines(c *StateCase, id int, purge bool) (lines []string, blockIdx, discIdx []int) {
-	p := 0
-	if purge {
-		p = 1
+	lines, blockIdx, discIdx, _ = stateModelLinesOld(c, id, purge, false)
+	return lines, blockIdx, discIdx
+}
+
+// ... with one `sold` line before every block n > 0: the old-root check of Update given the root stored for
+// block n-1 (oldIdx[n-1] = its line); oldFixed selects the model variant with the proposed repair.
+func stateModelLinesOld(c *StateCase, id int, purge, oldFixed bool) (lines []string, blockIdx, discIdx, oldIdx []int) {
+	b2i := func(b bool) int {
+		if b {
+			return 1
+		}
+		return 0
 	}
-	lines = []string{fmt.Sprintf("snew %d %d", id, p)}
+	lines = []string{fmt.Sprintf("snew %d %d", id, b2i(purge))}
 	for n := range c.Blocks {
 		b := &c.Blocks[n]
 		for di := range b.Before {
 			discIdx = append(discIdx, len(lines))
 			lines = append(lines, diffLine("sdiscard", id, &b.Before[di].Diff))
 		}
+		if n > 0 {
+			oldIdx = append(oldIdx, len(lines))
+			lines = append(lines, fmt.Sprintf("sold %d %d %d %d", id, b2i(oldFixed), b2i(pre014(c.Blocks[n-1].Version)), b2i(pre014(b.Version))))
+		}
 		blockIdx = append(blockIdx, len(lines))
 		lines = append(lines, diffLine("sblock", id, b))
 	}
-	return lines, blockIdx, discIdx
+	return lines, blockIdx, discIdx, oldIdx
 }
+
+// oldRootFixed probes whether a backend of the tree under test accepts the stored old root at the
+// commitment-formula switch (selects the Lean model variant of the old-root check).
+func oldRootFixed(newState bool) bool {
+	c := &StateCase{Blocks: []SBlock{
+		{Version: "0.13.2", Deployed: map[string]string{"abc": "c1a55"}},
+		{Version: "0.14.0", Nonces: map[string]string{"abc": "1"}},
+	}}
+	t := runOldState(c)
+	if newState {
+		t = runNewState(c)
+	}
+	return t.Err == "" && len(t.OldRej) == 0
+}
+
+var oldFixedVariant [2]bool // [new backend, deprecated backend]
 
 func diffLine(op string, id int, b *SBlock) string {
 	pre := 0
@@ -1220,6 +1249,7 @@ func checkStateCases(f lib.Flags, res *lib.Result, drv *lib.Driver, cases []*Sta
 	var offs []int
 	bIdx := make([][]int, len(cases))
 	dIdx := make([][]int, len(cases))
+	oIdx := make([][]int, len(cases))
 	if drv != nil {
 		for v, purge := range []bool{true, legacyPurgeVariant} {
 			var all []string
@@ -1227,7 +1257,7 @@ func checkStateCases(f lib.Flags, res *lib.Result, drv *lib.Driver, cases []*Sta
 			for i, c := range cases {
 				offs = append(offs, len(all))
 				var ls []string
-				ls, bIdx[i], dIdx[i] = stateModelLines(c, 0, purge)
+				ls, bIdx[i], dIdx[i], oIdx[i] = stateModelLinesOld(c, 0, purge, oldFixedVariant[v])
 				all = append(all, ls...)
 			}
 			a, err := drv.AskAll(all)
@@ -1254,6 +1284,19 @@ func checkStateCases(f lib.Flags, res *lib.Result, drv *lib.Driver, cases []*Sta
 			v, err := evalTerm(a)
 			if err != nil || feltHex(&v) != want {
 				res.Mismatch(lib.Mismatch{Sig: sig + "-of-dropped-update", Input: c, Model: clip(a), Impl: want})
+				return
+			}
+		}
+		// the old-root check: the model rejects the stored root exactly where the code does
+		rej := map[int]bool{}
+		for _, n := range impl.OldRej {
+			rej[n] = true
+		}
+		for j, idx := range oIdx[ci] {
+			a := ans[off+idx]
+			res.Compared(1)
+			if (a == "mismatch") != rej[j+1] || (a != "mismatch" && a != "ok") {
+				res.Mismatch(lib.Mismatch{Sig: sig + "-old-root-check", Input: c, Model: fmt.Sprintf("block %d: %s", j+1, a), Impl: fmt.Sprintf("rejected blocks %v %s", impl.OldRej, impl.OldRejErr)})
 				return
 			}
 		}
